@@ -29,15 +29,6 @@ const (
 var endName = []string{"commit", "rollback", "close-session", "expire-session", "drop-connection", "terminate"}
 
 const (
-	onErrEnd    = iota // go to the planned end
-	onErrCommit        // COMMIT after the failed statement
-	onErrRollback
-	onErrProbe // one more DML statement, then ROLLBACK
-)
-
-var onErrName = []string{"planned-end", "then-commit", "then-rollback", "then-statement-rollback"}
-
-const (
 	protoSimple = iota
 	protoExtended
 	protoPrepared
@@ -56,9 +47,9 @@ type prog struct {
 	Proto   int
 	Stmts   []*stmt
 	End     endKind
-	OnErr   int
-	Probe   *stmt // statement sent after a failed one (onErrProbe)
-	Inner   *prog // gRPC: a second NewTx in the same session while this one is open
+	After   []*stmt // what the client still sends inside a block that a failed statement (or USE) made unusable
+	End2    endKind // ... and how it then ends the block
+	Inner   *prog   // gRPC: a second NewTx in the same session while this one is open
 	InnerAt int
 }
 
@@ -73,7 +64,7 @@ func (p *prog) text() string {
 	case p.RO:
 		b.WriteString(" read-only")
 	}
-	fmt.Fprintf(&b, " end=%s onerr=%s: ", endName[p.End], onErrName[p.OnErr])
+	fmt.Fprintf(&b, " end=%s after-failure=[%s]+%s: ", endName[p.End], afterText(p.After), endName[p.End2])
 	for i, s := range p.Stmts {
 		if i > 0 {
 			b.WriteString("; ")
@@ -84,6 +75,18 @@ func (p *prog) text() string {
 		b.WriteString(s.text())
 	}
 	return b.String()
+}
+
+func afterText(a []*stmt) string {
+	var ks []string
+	for _, s := range a {
+		k := kindName[s.K]
+		if s.Name != "" {
+			k += ":" + s.Name
+		}
+		ks = append(ks, k)
+	}
+	return strings.Join(ks, ",")
 }
 
 type gen struct {
@@ -100,7 +103,8 @@ func (g *gen) rng() (int64, int64) {
 }
 
 // body generates the statements of one program.
-func (g *gen) body(tx int, ro, auto, script, noSave bool) []*stmt {
+func (g *gen) body(tx int, fe int, ro, auto, script, noSave bool) []*stmt {
+	pgBlock := fe == fePG && !auto && !script
 	n := 2 + g.r.IntN(7)
 	if auto {
 		n = 1 + g.r.IntN(4)
@@ -122,9 +126,24 @@ func (g *gen) body(tx int, ro, auto, script, noSave bool) []*stmt {
 		if script && x >= 60 && x < 92 {
 			x = g.r.IntN(60) // scripts carry no queries (one CommandComplete for the whole text)
 		}
+		if pgBlock && i > 0 && g.r.IntN(40) == 0 {
+			// USE of the database already selected: the session drops its transaction; the block is not usable after it
+			out = append(out, &stmt{K: kUse})
+			return out
+		}
 		switch {
 		case i == failAt && !script:
-			switch y := g.r.IntN(10); {
+			switch y := g.r.IntN(12); {
+			case y == 10:
+				s.K = kSyntax
+			case y == 11 && pgBlock:
+				// COPY with a row that must fail (same key twice), rows before and after it
+				id := int64(1 + g.r.IntN(keyDomain))
+				s.K = kCopy
+				s.Rows = []arow{{int64(keyDomain + 10 + g.r.IntN(5)), 1, g.marker(tx, i)}, {id, 2, g.marker(tx, i)}, {id, 3, g.marker(tx, i)},
+					{int64(keyDomain + 15 + g.r.IntN(5)), 4, g.marker(tx, i)}, {int64(keyDomain + 20 + g.r.IntN(5)), 5, g.marker(tx, i)}}
+			case y >= 10:
+				s.K = kInsBNull
 			case y < 5 && len(own) > 0:
 				s.K = kInsA
 				s.Rows = []arow{{own[g.r.IntN(len(own))], int64(g.r.IntN(100)), g.marker(tx, i)}}
@@ -139,6 +158,9 @@ func (g *gen) body(tx int, ro, auto, script, noSave bool) []*stmt {
 			}
 		case x < 22:
 			s.K = kInsA
+			if pgBlock && g.r.IntN(6) == 0 {
+				s.K = kCopy
+			}
 			nr := 1 + g.r.IntN(2)*g.r.IntN(2)
 			used := map[int64]bool{}
 			for j := 0; j < nr; j++ {
@@ -148,7 +170,7 @@ func (g *gen) body(tx int, ro, auto, script, noSave bool) []*stmt {
 				}
 				used[id] = true
 				sv := g.marker(tx, i)
-				if g.r.IntN(8) == 0 {
+				if g.r.IntN(8) == 0 && s.K != kCopy {
 					sv = "NULL"
 				}
 				s.Rows = append(s.Rows, arow{id, int64(g.r.IntN(100)), sv})
@@ -256,7 +278,7 @@ func (g *gen) prog(fe int) *prog {
 		if p.RO && p.End == endCommit && g.r.IntN(3) > 0 {
 			p.End = endRollback
 		}
-		p.OnErr = g.r.IntN(4)
+		p.End2 = []endKind{endCommit, endRollback, endCloseSession}[g.r.IntN(3)]
 	case fePG:
 		p.Proto = g.r.IntN(4)
 		switch {
@@ -279,21 +301,68 @@ func (g *gen) prog(fe int) *prog {
 		if p.Script && p.End > endRollback {
 			p.End = endCommit
 		}
-		p.OnErr = g.r.IntN(4)
+		p.End2 = []endKind{endCommit, endCommit, endRollback, endRollback, endDrop, endTerminate}[g.r.IntN(6)]
 	}
-	p.Stmts = g.body(p.TxID, p.RO, p.Auto, p.Script, false)
-	if p.OnErr == onErrProbe {
-		p.Probe = &stmt{K: kInsB, Tag: int64(p.TxID)*1000 + 900}
-		if g.r.IntN(2) == 0 {
-			p.Probe = &stmt{K: kUpsA, Rows: []arow{{int64(keyDomain + 1 + g.r.IntN(5)), 1, g.marker(p.TxID, 900)}}}
-		}
-	}
+	p.Stmts = g.body(p.TxID, fe, p.RO, p.Auto, p.Script, false)
+	p.After = g.after(p.TxID, fe)
 	if fe == feGRPC && !p.Auto && g.r.IntN(6) == 0 {
 		g.nextTx++
-		in := &prog{TxID: g.nextTx, FE: feGRPC, Proto: g.r.IntN(2), End: endKind(g.r.IntN(2)), OnErr: g.r.IntN(3)}
-		in.Stmts = g.body(in.TxID, false, false, false, true)
+		in := &prog{TxID: g.nextTx, FE: feGRPC, Proto: g.r.IntN(2), End: endKind(g.r.IntN(2)), End2: endKind(g.r.IntN(2))}
+		in.Stmts = g.body(in.TxID, feGRPC, false, false, false, true)
+		in.After = g.after(in.TxID, feGRPC)
 		p.Inner = in
 		p.InnerAt = g.r.IntN(len(p.Stmts))
 	}
 	return p
+}
+
+// after generates what a client may still send inside a block after one of its statements failed, before it ends the
+// block: 0-4 statements of every kind (savepoint handling as ORMs do for "nested transactions", more DML, queries, a
+// second failure, BEGIN again, COPY).
+func (g *gen) after(tx int, fe int) []*stmt {
+	n := g.r.IntN(5)
+	var out []*stmt
+	for i := 0; i < n; i++ {
+		s := &stmt{}
+		switch x := g.r.IntN(20); {
+		case x < 4:
+			s.K, s.Name = kRollTo, "@sp" // the savepoint declared last in the block (if any)
+		case x < 5:
+			s.K, s.Name = kRollTo, "nope"
+		case x < 7:
+			s.K, s.Name = kRelease, "@sp"
+			if x == 6 {
+				s.Name = "nope"
+			}
+		case x < 8:
+			s.K, s.Name = kSave, fmt.Sprintf("spa%d", i)
+		case x < 11:
+			s.K, s.Tag = kInsB, int64(tx)*1000+900+int64(i)
+		case x < 13:
+			s.K = kUpsA
+			s.Rows = []arow{{int64(keyDomain + 1 + g.r.IntN(5)), 1, g.marker(tx, 900+i)}}
+		case x < 14:
+			s.K = kUpdA
+			s.Lo, s.Hi, s.D = 0, keyDomain+40, 1000
+		case x < 15:
+			s.K = kDelA
+			s.Lo, s.Hi = 0, keyDomain+40
+		case x < 16:
+			s.K = kCntA
+		case x < 17:
+			s.K = kSelA
+			s.Lo, s.Hi = 0, keyDomain+40
+		case x < 18:
+			s.K = []kind{kInsBNull, kSyntax, kBadSel}[g.r.IntN(3)]
+		case x < 19 && fe == fePG:
+			s.K = kBegin
+		case fe == fePG:
+			s.K = kCopy
+			s.Rows = []arow{{int64(keyDomain + 30 + g.r.IntN(5)), 1, g.marker(tx, 900+i)}, {int64(keyDomain + 35 + g.r.IntN(5)), 2, g.marker(tx, 900+i)}}
+		default:
+			s.K, s.Tag = kInsB, int64(tx)*1000+900+int64(i)
+		}
+		out = append(out, s)
+	}
+	return out
 }
